@@ -762,6 +762,34 @@ impl CryptoTransform for CryptographicBuiltin {
     _receiving_datareader_crypto_handle: DatareaderCryptoHandle,
     sending_datawriter_crypto_handle: DatawriterCryptoHandle,
   ) -> SecurityResult<Vec<u8>> {
+    // A DATA submessage pads its payload to a multiple of 4 bytes, and the
+    // submessage parser hands us that padding as a part of the buffer. The
+    // CryptoFooter is located by counting from the end of the buffer, so if the
+    // buffer does not decode as it is, try also without 1 to 3 trailing zeros.
+    let mut result =
+      self.decode_unpadded_serialized_payload(&encoded_buffer, sending_datawriter_crypto_handle);
+    let mut unpadded = encoded_buffer.as_slice();
+    while let (true, Some((0, shorter))) = (
+      result.is_err() && encoded_buffer.len() - unpadded.len() < 3,
+      unpadded.split_last(),
+    ) {
+      unpadded = shorter;
+      if let Ok(plaintext) =
+        self.decode_unpadded_serialized_payload(unpadded, sending_datawriter_crypto_handle)
+      {
+        result = Ok(plaintext);
+      }
+    }
+    result
+  }
+}
+
+impl CryptographicBuiltin {
+  fn decode_unpadded_serialized_payload(
+    &self,
+    encoded_buffer: &[u8],
+    sending_datawriter_crypto_handle: DatawriterCryptoHandle,
+  ) -> SecurityResult<Vec<u8>> {
     // According to DDS Security spec v1.1 Section
     // "9.5.3.3.4.4 Result from encode_serialized_payload"
     // the incoming data buffer is either
